@@ -7,7 +7,7 @@ From Coq Require Import QArith Qabs.
 Local Open Scope Q_scope.
 
 (* ---- truncated_svd(M, delta, rmax, left_ortho), algorithm='svd' ---- *)
-Record svd_answer := mkSvd { sv_U : arr2; sv_s : list Q }.     (* torch.linalg.svd(M)[:2]: U (m x m), s *)
+Record svd_answer := mkSvd { sv_U : arr2; sv_s : list Q; sv_Vh : arr2 }.     (* torch.linalg.svd(M): U (m x m), s, Vh (n x n) *)
 Definition zero_thresh : Q := 1 # 10000000000000.               (* svd[1][0] < 1e-13 *)
 Definition tsvd (M : arr2) (d2 : Q) (rmax : nat) (left_ortho : bool) (a : svd_answer) : arr2 * arr2 :=
   let m := m_r M in let n := m_c M in
@@ -21,12 +21,11 @@ Definition tsvd (M : arr2) (d2 : Q) (rmax : nat) (left_ortho : bool) (a : svd_an
     let null := length (filter (fun x => Qle_bool x (nth 0 s 0 * tolq)) s) in
     let r := choose_rank S d2 rmax null in
     let U := sv_U a in
-    let sinv := fun k => let x := nth k s 0 in if Qle_bool x 0 then 0 else Qred (/ x) in
     if left_ortho
     then (tab2 m r (fun i k => g2 U i k),
           tab2 r n (fun k j => qsum m (fun i => Qred (g2 U i k * g2 M i j))))
     else (tab2 m r (fun i k => Qred (g2 U i k * nth k s 0)),
-          tab2 r n (fun k j => Qred (sinv k * qsum m (fun i => Qred (g2 U i k * g2 M i j))))).
+          tab2 r n (fun k j => g2 (sv_Vh a) k j)).      (* the right singular vectors themselves *)
 
 (* ---- round_tt(eps, rmax) ---- *)
 Record ts_answer := mkTs { ts_left : arr2; ts_right : arr2; ts_M : arr2; ts_d2 : Q; ts_rmax : nat }.   (* recorded truncated_svd call; rmax 0 = None *)
